@@ -97,6 +97,9 @@ func TestVerif_C10_RacingJoins(t *testing.T) {
 		done := make(chan struct{})
 		go func() { wg.Wait(); close(done) }()
 		if r := awaitAll(done); r != "" {
+			if r == "inconclusive" {
+				t.Fatalf("VERIF-HARNESS-ERROR: racing joins not finished after 5 s and no structural witness of a deadlock (slow machine): no verdict")
+			}
 			t.Fatalf("C10/C13: racing joins did not complete: %s", r)
 		}
 		g := group.Get(gname)
@@ -288,6 +291,9 @@ func TestVerif_C10_LastOperatorLeaves(t *testing.T) {
 		done := make(chan struct{})
 		go func() { wg.Wait(); close(done) }()
 		if r := awaitAll(done); r != "" {
+			if r == "inconclusive" {
+				t.Fatalf("VERIF-HARNESS-ERROR: operations not finished after 5 s and no structural witness of a deadlock (slow machine): no verdict")
+			}
 			t.Fatalf("C10/C13: last-operator departure racing a join did not complete: %s", r)
 		}
 		// In every schedule forced here the admission of the late joiner is evaluated after the operator was removed
